@@ -101,6 +101,8 @@ def prepare(scratch, sync=False, race=False, plain=False):
             cmd = [mcinstr, "-dir", d, "-base", str(base), "-strip", d, "-label", label, "-out", os.path.join(scratch, label.strip("/") + ".sites.json")]
             if sync:
                 cmd += ["-sync", "verif/mc/mcrt"]
+            if label == "analysis/":
+                cmd += ["-depth"]
             r = run(cmd, capture=True)
             rep = json.load(open(os.path.join(scratch, label.strip("/") + ".sites.json")))
             sites += rep["sites"]
